@@ -33,8 +33,8 @@ ASSUMPTIONS = [
 ]
 BOUNDS = {
     "quick": {"gates": "n<=4, every position", "measure/reset": "n<=2 all positions, determinism in {0,1,probabilistic}; budgeted looks at n=3 (three jobs) and n=4 (MeasureZ)",
-              "insert/remove/tensor": "n<=2 (n1+n2<=3)"},
-    "thorough": {"gates": "n<=8 every position, n=12 and 16 selected positions", "measure/reset": "n<=3 complete; n=4: four (operation, position, determinism) combinations with a 25 min budget each -- MeasureZ(n=4) completes (255 paths) with z3 arith.solver=2, a few dozen XOR-heavy obligations may stay undecided and are reported", "insert/remove/tensor": "n<=3"},
+              "insert/remove/tensor": "n<=2 (n1+n2<=3)", "row_sum": "two symbolic commuting rows, n = 4, 5"},
+    "thorough": {"gates": "n<=8 every position, n=12 and 16 selected positions", "measure/reset": "n<=3 complete; n=4: four (operation, position, determinism) combinations with a 25 min budget each -- MeasureZ(n=4) completes (255 paths) with z3 arith.solver=2, a few dozen XOR-heavy obligations may stay undecided and are reported", "insert/remove/tensor": "n<=3", "row_sum": "n = 4, 5, 6, 8"},
 }
 OUTSIDE = ("n above the bounds (hundreds of qubits, n=200 random walks); Stabilizer.apply_x_measurement (calls a "
            "function that does not exist); performance")
@@ -542,6 +542,11 @@ def plan(tier):
         for g in ("CNOT", "CZ", "CY"):
             for a, b in itertools.permutations(range(n), 2):
                 jobs.append((StabGate(n=n, gate=g, pos=[a, b]), {}))
+    # the row product used by measurement / reset / removal, on two fully symbolic commuting rows (one path per size):
+    # sign rule against the oracle product; sizes beyond the tableau harnesses are cheap here
+    from props.c05 import RowSum
+    for n in ([2, 3, 4, 5] if q else [2, 3, 4, 5, 6, 8]):
+        jobs.append((RowSum(n=n, commuting=True), {}))
     circ = [["H", 0], ["P", 1], ["CNOT", 0, 1], ["P_dag", 0], ["X", 1], ["I", 0], ["Y", 0], ["Z", 1], ["CZ", 1, 0], ["P", 0]]
     for rev in (False, True):
         jobs.append((RunCircuit(n=2, circuit=circ, reverse=rev), {}))
